@@ -42,6 +42,12 @@ func init() {
 	mutant(&Mutant{Name: "c06-attr-entities-not-reescaped", Property: "C06", File: "xml/xml.go",
 		Old: "val = parse.ReplaceEntities(val, EntitiesMap, TextRevEntitiesMap)", New: "val = parse.ReplaceEntities(val, EntitiesMap, nil)",
 		Rule: "R06.4", Construct: "ReplaceEntities(val)"})
+	mutant(&Mutant{Name: "c06-doctype-collapsed", Property: "C06", File: "xml/xml.go",
+		Old: "\t\tcase xml.DOCTYPEToken:\n\t\t\tw.Write(t.Data)\n", New: "\t\tcase xml.DOCTYPEToken:\n\t\t\tw.Write(parse.ReplaceMultipleWhitespace(t.Data))\n",
+		Rule: "R06.5", Construct: "DOCTYPEToken"})
+	mutant(&Mutant{Name: "c06-pi-data-trimmed", Property: "C06", File: "xml/xml.go",
+		Old: "\t\tcase xml.StartTagPIToken:\n\t\t\tw.Write(t.Data)\n", New: "\t\tcase xml.StartTagPIToken:\n\t\t\tt.Data = parse.ToLower(t.Data)\n\t\t\tw.Write(t.Data)\n",
+		Rule: "R06.5", Construct: "assignment to t.Data"})
 	mutant(&Mutant{Name: "c07-guard-includes-plus", Property: "C07", File: "json/json.go",
 		Old: "('0' <= text[0] && text[0] <= '9' || text[0] == '-')", New: "('+' <= text[0] && text[0] <= '9' || text[0] == '-')",
 		Rule: "R07.1", Construct: "number guard"})
@@ -234,6 +240,119 @@ func runC06(c *Ctx) {
 	}
 	c.R.Floor(r3, "whitespace-only text tests", k, 1)
 	c.entityReescape("R06.4", "xml", 2)
+
+	// R06.5: which token kinds may be rewritten at all
+	const r5 = "R06.5"
+	c.R.Rule(r5, "only character data may be rewritten: (a) every call in package xml of a whitespace-rewriting helper of parse/v2 (a function returning []byte whose name contains `Whitespace`) lies in the TextToken case; (b) every assignment to t.Data / t.Text / t.AttrVal or to one of their elements lies in the TextToken case, in the EndTagToken case as a reslice / element store of t.Data itself (`</a  >` → `</a>`), or under the test t.TokenType == xml.CDATAToken (CDATA → text conversion); (c) in the cases of the markup tokens that have no rewrite (DOCTYPE, start tag, PI open/close, void close) the only thing written is t.Data. A DOCTYPE, PI or tag passed through a collapsing/trimming helper changes literals of the internal subset, PI content or names")
+	verbatim := map[string]bool{"DOCTYPEToken": true, "StartTagToken": true, "StartTagPIToken": true, "StartTagCloseVoidToken": true, "StartTagClosePIToken": true}
+	nWS := 0
+	for _, f := range load.FuncDecls(pk) {
+		if f.Body == nil {
+			continue
+		}
+		ast.Inspect(f.Body, func(n ast.Node) bool {
+			call, ok := n.(*ast.CallExpr)
+			if !ok {
+				return true
+			}
+			fo, _ := callee(info, call).(*types.Func)
+			if fo == nil || fo.Pkg() == nil || fo.Pkg().Path() != load.ParseMod || !strings.Contains(fo.Name(), "Whitespace") {
+				return true
+			}
+			sig := fo.Type().(*types.Signature)
+			if sig.Results().Len() != 1 || !isByteSlice(sig.Results().At(0).Type()) {
+				return true
+			}
+			nWS++
+			lab := ""
+			if f == fd {
+				lab = c.caseLabel(call)
+			}
+			c.R.Check(lab == "case xml.TextToken", r5, "xml."+load.FuncName(f)+"/"+fo.Name()+" only on character data", c.pos(call), "in the TextToken case", "parse."+fo.Name()+" is applied outside the TextToken case ("+lab+"): whitespace inside markup (DOCTYPE literals, PI content, attribute values) is significant and gets rewritten")
+			return true
+		})
+	}
+	c.R.Floor(r5, "whitespace helper calls", nWS, 1)
+	tokField := func(e ast.Expr) bool {
+		for {
+			switch x := ast.Unparen(e).(type) {
+			case *ast.IndexExpr:
+				e = x.X
+				continue
+			case *ast.SliceExpr:
+				e = x.X
+				continue
+			}
+			break
+		}
+		s := str(e)
+		return s == "t.Data" || s == "t.Text" || s == "t.AttrVal"
+	}
+	nAsg := 0
+	for _, y := range g.Nodes {
+		as, ok := y.Stmt.(*ast.AssignStmt)
+		if !ok || y.Kind != flow.KStmt {
+			continue
+		}
+		for i, l := range as.Lhs {
+			if !tokField(l) {
+				continue
+			}
+			nAsg++
+			lab := c.caseLabel(as)
+			okAsg, why := false, ""
+			switch lab {
+			case "case xml.TextToken":
+				okAsg = true
+			case "case xml.EndTagToken":
+				if _, isIdx := ast.Unparen(l).(*ast.IndexExpr); isIdx && strings.HasPrefix(str(l), "t.Data[") {
+					okAsg = true
+				} else if i < len(as.Rhs) {
+					if sl, isSl := ast.Unparen(as.Rhs[i]).(*ast.SliceExpr); isSl && str(sl.X) == "t.Data" && str(l) == "t.Data" {
+						okAsg = true
+					}
+				}
+				why = "in the end tag only the space before `>` may be cut (reslice of t.Data)"
+			case "":
+				for _, f := range g.DomFacts(y) {
+					if f.Value && f.Test.Kind == flow.KCond && nospace(str(f.Test.Expr)) == "t.TokenType==xml.CDATAToken" {
+						okAsg = true
+					}
+				}
+				why = "before the switch only a CDATA section is converted"
+			default:
+				why = "this token kind has no licensed rewrite"
+			}
+			c.R.Check(okAsg, r5, "xml.Minifier.Minify/assignment to "+str(l)+" ("+lab+")", c.pos(as), "character data, end-tag trim or CDATA conversion", "the token's bytes are replaced in "+lab+": "+why)
+		}
+	}
+	c.R.Floor(r5, "token data assignments", nAsg, 5)
+	for k := range verbatim {
+		cn := cases[k]
+		if cn == nil {
+			continue
+		}
+		cc, _ := c.P.Parent(cn.Expr).(*ast.CaseClause)
+		if cc == nil {
+			c.R.Unres(r5, "xml.Minifier.Minify/case xml."+k+"/verbatim", c.pos(cn.Expr), "case clause not found")
+			continue
+		}
+		var bad []string
+		nw := 0
+		for _, st := range cc.Body {
+			flowInspectCalls(st, func(call *ast.CallExpr) {
+				if sel, isSel := call.Fun.(*ast.SelectorExpr); isSel && sel.Sel.Name == "Write" {
+					if id, isId := ast.Unparen(sel.X).(*ast.Ident); isId && info.Uses[id] == wObj && len(call.Args) == 1 {
+						nw++
+						if str(call.Args[0]) != "t.Data" {
+							bad = append(bad, "writes "+str(call.Args[0])+" at "+c.pos(call))
+						}
+					}
+				}
+			})
+		}
+		c.R.Check(len(bad) == 0 && nw > 0, r5, "xml.Minifier.Minify/case xml."+k+"/verbatim", c.pos(cn.Expr), "t.Data written as is", "a "+k+" is not written verbatim: "+strings.Join(bad, "; "))
+	}
 }
 
 // entityReescape (R06.4 / R05.4): decoded character references never leave a bare markup character.
